@@ -345,6 +345,46 @@ def predictions(ctx, b, model_exe, gen_file, exp_abs, snap):
     return dis
 
 
+def section_predictions(ctx, b, model_exe, f, root):
+    """the order in which exppp prints the types / entities / functions / procedures / rules of each schema vs the model
+    (`sectionOrder`: DICTdo walk + SCOPEadd_inorder under the regenerated default of exppp_alphabetize)"""
+    dis = []
+    exp = os.path.join(root, "sections.exp")
+    wd = os.path.join(root, "sections")
+    os.makedirs(wd)
+    open(exp, "w").write(f.text())
+    r = subprocess.run([b.tool("exppp"), exp], cwd=wd, env=b.env(), capture_output=True)
+    if r.returncode != 0:
+        return dis
+    for s in f.schemas:
+        p = os.path.join(wd, s.name + ".exp")
+        if not os.path.exists(p):
+            continue
+        txt = open(p, errors="replace").read()
+        txt = re.sub(r"\(\*.*?\*\)", " ", txt, flags=re.S)
+        classes = {"TYPE": [d.name for d in s.decls if isinstance(d, SG.TypeDecl)],
+                   "ENTITY": [d.name for d in s.decls if isinstance(d, SG.EntityDecl)],
+                   "FUNCTION": [d.name for d in s.decls if isinstance(d, SG.OtherDecl) and d.what == "FUNCTION"],
+                   "PROCEDURE": [d.name for d in s.decls if isinstance(d, SG.OtherDecl) and d.what == "PROCEDURE"],
+                   "RULE": [d.name for d in s.decls if isinstance(d, SG.OtherDecl) and d.what == "RULE"]}
+        lines, kinds = [], []
+        for k, names in classes.items():
+            if len(names) >= 2:
+                lines.append("section " + " ".join(names)); kinds.append(k)
+        if not lines:
+            continue
+        rc, out, err = G.run_driver(model_exe, lines)
+        if rc != 0 or len(out) != len(lines) or "bad-op" in out:
+            return [f"model driver on section: rc={rc} {out[:2]}"]
+        for k, o in zip(kinds, out):
+            real = [m.group(1).lower() for m in re.finditer(r"(?m)^\s*" + k + r"\s+(\w+)", txt)]
+            pred = o[2:].split()
+            ctx.hist("predictions", f"exppp order of {k} declarations")
+            if real != pred:
+                dis.append(f"schema {s.name}: order of {k} declarations in exppp's output {real[:8]} vs model {pred[:8]}")
+    return dis
+
+
 def refout_predictions(ctx, b, model_exe, f, root):
     """exppp's interface blocks (REFout): supplier groups, their order, and the items inside each group vs the model
     (`refoutGroups`: DICTdo order of usedict/refdict, grouped through a dictionary keyed by the supplier's name)"""
@@ -422,6 +462,10 @@ def examine(ctx, b, name, text, exp_src, cfgs, idx, gen_file=None, model_exe=Non
                 ref = (rc, snap, out, cfg)
                 if tool == "exp2cxx" and rc == 0 and gen_file is not None and model_exe:
                     for d in predictions(ctx, b, model_exe, gen_file, exp_abs, snap):
+                        ctx._disagree.append((name, d))
+                    sroot = os.path.join(root, "secpred")
+                    os.makedirs(sroot, exist_ok=True)
+                    for d in section_predictions(ctx, b, model_exe, gen_file, sroot):
                         ctx._disagree.append((name, d))
                 continue
             what = None
